@@ -140,3 +140,32 @@ def value_terms(v):
     if isinstance(v, WeightedTensor):
         return st.to_terms(v.value), (st.to_terms(v.weight) if v.weight is not None else None)
     return st.to_terms(v), None
+
+
+def replay_prologue(kind, kw, ins, model, std_abs=True):
+    """python source building the same real model + state with concrete inputs read from an SMT model.
+    Defines: m (model), s (State, auto-fork REF), and one variable per input name in dict `I`."""
+    from vcheck.common import tensor_literal
+
+    lines = [
+        "from leaspy.models.factory import model_factory",
+        "from leaspy.utils.weighted_tensor import WeightedTensor",
+        "from leaspy.variables.state import State, StateForkType",
+        f"m = model_factory({kind!r}, **{kw!r}); m._initialize_state()",
+        "s = State(m.dag, auto_fork_type=StateForkType.REF)",
+        "I = {}",
+    ]
+    for name, t in ins.items():
+        lit = tensor_literal(t, model)
+        if std_abs and name.endswith("_std"):
+            lit += ".abs() + 1e-3"
+        lines.append(f"I[{name!r}] = {lit}")
+    lines.append("with s.auto_fork(None):")
+    lines.append("    for k, v in I.items():")
+    lines.append("        if k in ('t', 'y', 'mask'): continue")
+    lines.append("        s[k] = v")
+    if "t" in ins:
+        lines.append("    mask = I['mask'].bool()")
+        lines.append("    m._put_data_timepoints(s, WeightedTensor(I['t'], mask.any(dim=-1)))")
+        lines.append("    s['y'] = WeightedTensor(I['y'], weight=mask)")
+    return "\n".join(lines) + "\n"
